@@ -70,6 +70,21 @@ Qed.
    (3) revision differs but the fallback applies (fallback_ok_spec): the CURRENT object gets the new status.
    No other key is touched; a missing key is never inserted; a retry is queued iff the operation had
    failed and the status write happened. *)
+(* result.original at the time the retry is queued: the reconciled object after a CompareAndSwap, the
+   object just inserted (current + new status) after the fallback (fix 1583841) *)
+Definition queued (t : table) (r : opres) : obj :=
+  match t_live t (o_pk (r_obj r)) with
+  | Some (cur, rv) =>
+    if rv =? r_rev r then r_obj r else with_status cur (if r_ok r then Done else Error) (t_nextid t)
+  | None => r_obj r
+  end.
+
+Lemma queued_pk : forall t r, keyed t -> o_pk (queued t r) = o_pk (r_obj r).
+Proof.
+  intros t r Hk. unfold queued. destruct (t_live t (o_pk (r_obj r))) as [[cur rv]|] eqn:E; [|reflexivity].
+  destruct (rv =? r_rev r); [reflexivity|]. cbn. apply (Hk _ cur rv). apply t_live_slot. exact E.
+Qed.
+
 Definition commit_effect (fixed efb : bool) (now : N) (t : table) (q : retries) (r : opres) (t' : table) (q' : retries) : Prop :=
   let pk := o_pk (r_obj r) in
   let st := if r_ok r then Done else Error in
@@ -83,7 +98,7 @@ Definition commit_effect (fixed efb : bool) (now : N) (t : table) (q : retries) 
          slot_of t' pk = Some (Live (with_status cur st (t_nextid t)) (t_rev t + 1)) /\
          t_rev t' = t_rev t + 1) ) /\
   q' = (if negb (r_ok r) && wrote t t'
-        then r_add q (r_obj r) (t_rev t') (if fixed then r_orig r else r_rev r) false now else q).
+        then r_add q (queued t r) (t_rev t') (if fixed then r_orig r else r_rev r) false now else q).
 
 Lemma wrote_insert : forall t t1 o, t_rev t1 = t_rev t -> (t_rev (t_insert t1 o) =? t_rev t + 1) = true.
 Proof. intros t t1 o H. cbn. rewrite H. apply N.eqb_refl. Qed.
@@ -93,7 +108,7 @@ Proof. intros t t1 H. rewrite H. apply N.eqb_neq. lia. Qed.
 Theorem commit_one_spec : forall fixed efb now t q r t' q', keyed t ->
   commit_one fixed efb now (t, q) r = (t', q') -> commit_effect fixed efb now t q r t' q'.
 Proof.
-  intros fixed efb now t q r t' q' Hk H. unfold commit_effect.
+  intros fixed efb now t q r t' q' Hk H. unfold commit_effect, queued.
   unfold commit_one, t_fresh_id, t_cas in H.
   set (t1 := mkTable (t_slots t) (t_rev t) (t_nextid t + 1) (t_pendinit t)) in *.
   assert (L1 : forall st, t_live t1 (o_pk (with_status (r_obj r) st (t_nextid t))) = t_live t (o_pk (r_obj r))) by reflexivity.
@@ -138,9 +153,10 @@ Definition not_live (t : table) (k : N) : Prop :=
   match slot_of t k with Some (Live _ _) => False | _ => True end.
 
 (* the reconciled object of a result is the object the table held at the reconciled revision
-   (revisions identify object versions) *)
+   (revisions identify object versions): same payload, same data of the other writers *)
 Definition rev_identifies (t : table) (r : opres) : Prop :=
-  forall cur, t_live t (o_pk (r_obj r)) = Some (cur, r_rev r) -> o_ver cur = o_ver (r_obj r).
+  forall cur, t_live t (o_pk (r_obj r)) = Some (cur, r_rev r) ->
+    o_ver cur = o_ver (r_obj r) /\ o_aux cur = o_aux (r_obj r).
 
 Lemma commit_one_keyed : forall fixed efb now t q r t' q', keyed t ->
   commit_one fixed efb now (t, q) r = (t', q') -> keyed t'.
@@ -204,7 +220,7 @@ Proof.
   - intro k. unfold payload. destruct (N.eq_dec k (o_pk (r_obj r))) as [E|E]; [subst k|rewrite Ho by exact E; reflexivity].
     destruct Hc as [[A _]|[[cur [A [B _]]]|[cur [rv0 [A [_ [_ [B _]]]]]]]].
     + rewrite A. reflexivity.
-    + rewrite B. pose proof (Hri cur A) as V. apply t_live_slot in A. rewrite A. cbn. congruence.
+    + rewrite B. destruct (Hri cur A) as [V _]. apply t_live_slot in A. rewrite A. cbn. congruence.
     + rewrite B. apply t_live_slot in A. rewrite A. reflexivity.
   - intros k Hn. destruct (N.eq_dec k (o_pk (r_obj r))) as [E|E]; [subst k|apply Ho; exact E].
     destruct (commit_one_never_inserts _ _ _ _ _ _ _ _ Hk H Hn) as [A _]. apply A.
@@ -245,11 +261,12 @@ Lemma commit_one_orig : forall efb now t q r t' q' pk, keyed t ->
 Proof.
   intros efb now t q r t' q' pk Hk H. destruct (commit_one_spec _ _ _ _ _ _ _ _ Hk H) as [_ [_ Hq]].
   destruct (negb (r_ok r) && wrote t t'); [|left; rewrite Hq; reflexivity].
+  pose proof (queued_pk t r Hk) as Qk.
   subst q'. unfold orig_of. destruct (N.eq_dec pk (o_pk (r_obj r))) as [E|E].
   - right. split; [exact E|]. subst pk.
-    destruct (add_item_spec q (r_obj r) (t_rev t') (r_orig r) false now) as [it [H1 [_ [_ [H4 _]]]]].
-    rewrite H1. cbn. rewrite H4. reflexivity.
-  - left. rewrite add_other by exact E. reflexivity.
+    destruct (add_item_spec q (queued t r) (t_rev t') (r_orig r) false now) as [it [H1 [_ [_ [H4 _]]]]].
+    rewrite Qk in H1. rewrite H1. cbn. rewrite H4. reflexivity.
+  - left. rewrite add_other by (rewrite Qk; exact E). reflexivity.
 Qed.
 
 (* processSingle hands the item's origRev on to the result (update) or straight back to Add (delete) *)
@@ -300,15 +317,19 @@ Qed.
 (* ------------------------------------------------------------------ fix 8844901 (positive statement) *)
 (* a RETRY result (rev <> origRev) meeting an object that still carries our Error status is always
    written — whatever revision a foreign status-only write gave the object meanwhile — and a failed retry
-   is re-queued for the written revision with its origRev *)
+   is re-queued for the written revision with its origRev, with the object that was written when the
+   revision had changed (fix 1583841); the foreign data (o_aux) of the current object is kept *)
 Theorem retry_commits_over_foreign_write : forall fixed now t q r t' q' cur rv, keyed t ->
   t_live t (o_pk (r_obj r)) = Some (cur, rv) -> o_kind cur = Error -> r_rev r <> r_orig r ->
   commit_one fixed true now (t, q) r = (t', q') ->
   t_rev t' = t_rev t + 1 /\
   (exists o', slot_of t' (o_pk (r_obj r)) = Some (Live o' (t_rev t + 1)) /\
               o_kind o' = (if r_ok r then Done else Error) /\
-              o_ver o' = (if rv =? r_rev r then o_ver (r_obj r) else o_ver cur)) /\
-  q' = (if r_ok r then q else r_add q (r_obj r) (t_rev t + 1) (if fixed then r_orig r else r_rev r) false now).
+              o_ver o' = (if rv =? r_rev r then o_ver (r_obj r) else o_ver cur) /\
+              o_aux o' = (if rv =? r_rev r then o_aux (r_obj r) else o_aux cur)) /\
+  q' = (if r_ok r then q
+        else r_add q (if rv =? r_rev r then r_obj r else with_status cur Error (t_nextid t)) (t_rev t + 1)
+                   (if fixed then r_orig r else r_rev r) false now).
 Proof.
   intros fixed now t q r t' q' cur rv Hk Hl Hke Hre H.
   destruct (commit_one_spec _ _ _ _ _ _ _ _ Hk H) as [_ [Hc Hq]].
@@ -317,11 +338,11 @@ Proof.
   - destruct (C cur rv Hl) as [_ C2]. congruence.
   - rewrite Hl in A. injection A as A1 A2. subst c2 rv. rewrite N.eqb_refl.
     split; [exact C|]. split.
-    + eexists. split; [exact B|]. split; reflexivity.
-    + rewrite Hq. unfold wrote. rewrite C, N.eqb_refl. destruct (r_ok r); reflexivity.
+    + eexists. split; [exact B|]. split; [reflexivity|split; reflexivity].
+    + rewrite Hq. unfold wrote, queued. rewrite C, N.eqb_refl, Hl, N.eqb_refl. destruct (r_ok r); reflexivity.
   - rewrite Hl in A. injection A as A1 A3. subst c2 rv2.
     apply N.eqb_neq in A2. rewrite A2.
     split; [exact C|]. split.
-    + eexists. split; [exact B|]. split; reflexivity.
-    + rewrite Hq. unfold wrote. rewrite C, N.eqb_refl. destruct (r_ok r); reflexivity.
+    + eexists. split; [exact B|]. split; [reflexivity|split; reflexivity].
+    + rewrite Hq. unfold wrote, queued. rewrite C, N.eqb_refl, Hl, A2. destruct (r_ok r); reflexivity.
 Qed.
